@@ -154,6 +154,8 @@ class EFloatFormat(EncodableFormat):
 
         if not self._mpb_fmt.representable_in(x):
             return False
+        elif isinstance(x, Float) and x.is_nar():
+            return True
         elif x.is_zero():
             return not (x.s and self.nan_kind == EFloatNanKind.NEG_ZERO)
         return self.has_nonzero()
